@@ -43,12 +43,13 @@ theorem liveOk_single (st : St) (p : String) : LiveOk [(st.fresh p).1] (st.fresh
 /-! ### statements -/
 
 theorem lowerSimple_sim (W : World U V) (hS : LawfulSeq W) (cx : Ctx) (hn : cx.nsp.kind = .module) {s : Stmt} (hs : SimpleS s)
-    (hnif : ∀ c b e, s ≠ .if_ c b e)
+    (hnif : ∀ c b e, s ≠ .if_ c b e) (hnfor : ∀ tg i b e, s ≠ .for_ tg i b e)
     {u u' : U} (hx : ExecS W s u u') (t : T V) (st : St) (es : List Expr) (st' : St)
     (h : lowerStmt cx s st = .ok (es, st')) : (∃ t', Seq W es u t u' t') ∧ sameFlags st' st := by
   cases hx with
   | ifTrue c b e => exact absurd rfl (hnif c b e)
   | ifFalse c b e => exact absurd rfl (hnif c b e)
+  | for_ tg i b e => exact absurd rfl (hnfor tg i b e)
   | expr e he =>
       cases hs with
       | expr _ hc =>
@@ -246,6 +247,109 @@ theorem flowKind_module {cx : Ctx} (hn : cx.nsp.kind = .module) (hl : cx.loops =
 theorem simple_not_direct {s : Stmt} (hs : SimpleS s) : s.isDirect = false := by
   cases hs <;> rfl
 
+mutual
+  theorem simple_hasRet : ∀ (s : Stmt), SimpleS s → hasRet s = false
+    | .if_ _ b e, hs => by
+        cases hs with
+        | if_ _ _ _ _ hb he => simp [hasRet, simpleL_hasRetL b hb, simpleL_hasRetL e he]
+    | .for_ _ _ b e, hs => by
+        cases hs with
+        | for_ _ _ _ _ _ _ hb he => simp [hasRet, simpleL_hasRetL b hb, simpleL_hasRetL e he]
+    | .expr _, _ => rfl
+    | .pass_, _ => rfl
+    | .global_ _, _ => rfl
+    | .assign .., _ => rfl
+    | .augAssign .., _ => rfl
+    | .while_ .., hs => by cases hs
+    | .break_, hs => by cases hs
+    | .continue_, hs => by cases hs
+    | .annAssign .., hs => by cases hs
+    | .functionDef .., hs => by cases hs
+    | .return_ _, hs => by cases hs
+    | .nonlocal_ _, hs => by cases hs
+    | .classDef .., hs => by cases hs
+    | .import_ _, hs => by cases hs
+    | .importFrom .., hs => by cases hs
+    | .other .., hs => by cases hs
+  theorem simpleL_hasRetL : ∀ (ss : List Stmt), (∀ s ∈ ss, SimpleS s) → hasRetL ss = false
+    | [], _ => rfl
+    | s :: ss, hs => by
+        simp [hasRetL, simple_hasRet s (hs s (by simp)), simpleL_hasRetL ss (fun x hx => hs x (by simp [hx]))]
+end
+
+mutual
+  theorem simple_hasBC (bo : Bool) : ∀ (s : Stmt), SimpleS s → hasBC bo s = false
+    | .if_ _ b e, hs => by
+        cases hs with
+        | if_ _ _ _ _ hb he => simp [hasBC, simpleL_hasBCL bo b hb, simpleL_hasBCL bo e he]
+    | .for_ _ _ b e, hs => by
+        cases hs with
+        | for_ _ _ _ _ _ _ hb he => simp [hasBC, simpleL_hasBCL bo e he]
+    | .expr _, _ => rfl
+    | .pass_, _ => rfl
+    | .global_ _, _ => rfl
+    | .assign .., _ => rfl
+    | .augAssign .., _ => rfl
+    | .while_ .., hs => by cases hs
+    | .break_, hs => by cases hs
+    | .continue_, hs => by cases hs
+    | .annAssign .., hs => by cases hs
+    | .functionDef .., hs => by cases hs
+    | .return_ _, hs => by cases hs
+    | .nonlocal_ _, hs => by cases hs
+    | .classDef .., hs => by cases hs
+    | .import_ _, hs => by cases hs
+    | .importFrom .., hs => by cases hs
+    | .other .., hs => by cases hs
+  theorem simpleL_hasBCL (bo : Bool) : ∀ (ss : List Stmt), (∀ s ∈ ss, SimpleS s) → hasBCL bo ss = false
+    | [], _ => rfl
+    | s :: ss, hs => by
+        simp [hasBCL, simple_hasBC bo s (hs s (by simp)), simpleL_hasBCL bo ss (fun x hx => hs x (by simp [hx]))]
+end
+
+theorem simple_mayInt (fk : FlowKind) {s : Stmt} (hs : SimpleS s) : mayInt fk s = false := by
+  cases fk <;> simp [mayInt, simple_hasRet s hs, simple_hasBC false s hs]
+
+theorem simpleL_anyIntL : ∀ (ss : List Stmt), (∀ s ∈ ss, SimpleS s) → anyIntL ss = false
+  | [], _ => rfl
+  | s :: ss, hs => by simp [anyIntL, simple_mayInt .loop (hs s (by simp)), simpleL_anyIntL ss (fun x hx => hs x (by simp [hx]))]
+
+theorem simpleL_hasBreakL : ∀ (ss : List Stmt), (∀ s ∈ ss, SimpleS s) → hasBreakL ss = false
+  | [], _ => rfl
+  | s :: ss, hs => by
+      simp [hasBreakL, simple_hasRet s (hs s (by simp)), simple_hasBC true s (hs s (by simp)), simpleL_hasBreakL ss (fun x hx => hs x (by simp [hx]))]
+
+mutual
+  theorem simple_guardsInS (fk : FlowKind) : ∀ (s : Stmt), SimpleS s → guardsInS fk s = false
+    | .if_ _ b e, hs => by
+        cases hs with
+        | if_ _ _ _ _ hb he => simp [guardsInS, simpleL_guardsInL fk b hb, simpleL_guardsInL fk e he]
+    | .for_ _ _ b e, hs => by
+        cases hs with
+        | for_ _ _ _ _ _ _ hb he => simp [guardsInS, simpleL_guardsInL fk e he]
+    | .expr _, _ => rfl
+    | .pass_, _ => rfl
+    | .global_ _, _ => rfl
+    | .assign .., _ => rfl
+    | .augAssign .., _ => rfl
+    | .while_ .., hs => by cases hs
+    | .break_, hs => by cases hs
+    | .continue_, hs => by cases hs
+    | .annAssign .., hs => by cases hs
+    | .functionDef .., hs => by cases hs
+    | .return_ _, hs => by cases hs
+    | .nonlocal_ _, hs => by cases hs
+    | .classDef .., hs => by cases hs
+    | .import_ _, hs => by cases hs
+    | .importFrom .., hs => by cases hs
+    | .other .., hs => by cases hs
+  theorem simpleL_guardsInL (fk : FlowKind) : ∀ (ss : List Stmt), (∀ s ∈ ss, SimpleS s) → guardsInL fk ss = false
+    | [], _ => rfl
+    | s :: ss, hs => by
+        simp [guardsInL, simple_not_direct (hs s (by simp)), simple_mayInt fk (hs s (by simp)), simple_guardsInS fk s (hs s (by simp)),
+          simpleL_guardsInL fk ss (fun x hx => hs x (by simp [hx]))]
+end
+
 /-! ### the fragment never requests helper imports (static) -/
 
 theorem assignTargets_flags {n : Nsp} (hn : n.kind = .module) (v : Expr) : ∀ (ts : List Expr), (∀ tg ∈ ts, SimpleT tg) →
@@ -260,9 +364,9 @@ theorem assignTargets_flags {n : Nsp} (hn : n.kind = .module) (v : Expr) : ∀ (
         (assignAuto_flags hn tg (hs tg (by simp)) false v st a st1 ha)
 
 mutual
-  theorem lowerStmt_flags : ∀ (s : Stmt) (cx : Ctx), cx.nsp.kind = .module → cx.loops = [] →
+  theorem lowerStmt_flags : ∀ (s : Stmt) (cx : Ctx), cx.nsp.kind = .module →
       SimpleS s → ∀ (st : St) (es : List Expr) (st' : St), lowerStmt cx s st = .ok (es, st') → sameFlags st' st
-    | .if_ test body orelse, cx, hn, hl, hs, st, es, st', h => by
+    | .if_ test body orelse, cx, hn, hs, st, es, st', h => by
         cases hs with
         | if_ _ _ _ hct hsb hso =>
           simp only [lowerStmt] at h
@@ -270,19 +374,32 @@ mutual
           obtain ⟨⟨o, st2⟩, ho, h⟩ := bind_ok h
           obtain ⟨t', ht', h⟩ := bind_ok h
           have hfl : sameFlags st2 st :=
-            sameFlags_trans (lowerBlock_flags orelse cx hn hl hso st1 o st2 ho) (lowerBlock_flags body cx hn hl hsb st b st1 hb)
+            sameFlags_trans (lowerBlock_flags orelse cx hn hso st1 o st2 ho) (lowerBlock_flags body cx hn hsb st b st1 hb)
           cases hst : cx.cfg.ifStyle with
           | ifExpr => simp only [hst] at h; cases pure_ok h; exact hfl
           | shortCircuit =>
             simp only [hst] at h
             rcases ite_cases h with ⟨_, h⟩ | ⟨_, h⟩ <;> (cases pure_ok h; exact hfl)
-    | .expr e, cx, hn, _, hs, st, es, st', h => by
+    | .for_ target iter body orelse, cx, hn, hs, st, es, st', h => by
+        cases hs with
+        | for_ _ _ _ _ hst hci hsb hso =>
+          simp only [lowerStmt, simpleL_anyIntL body hsb, simpleL_hasBreakL body hsb, simpleL_guardsInL .loop body hsb] at h
+          obtain ⟨⟨b, st1⟩, hb, h⟩ := bind_ok h
+          obtain ⟨⟨o, st2⟩, ho, h⟩ := bind_ok h
+          obtain ⟨⟨asg, st4⟩, ha, h⟩ := bind_ok h
+          obtain ⟨itr, _, h⟩ := bind_ok h
+          have hfl : sameFlags st4 st :=
+            sameFlags_trans (assignAuto_flags hn target hst false _ _ asg st4 ha) (sameFlags_trans (sameFlags_fresh _ _)
+              (sameFlags_trans (lowerBlock_flags orelse cx hn hso st1 o st2 ho)
+                (sameFlags_trans (lowerBlock_flags body _ (by exact hn) hsb _ b st1 hb) (sameFlags_trans (sameFlags_fresh _ _) (sameFlags_fresh _ _)))))
+          rcases ite_cases h with ⟨_, h⟩ | ⟨_, h⟩ <;> (cases pure_ok h; exact hfl)
+    | .expr e, cx, hn, hs, st, es, st', h => by
         simp only [lowerStmt] at h
         obtain ⟨e', _, h⟩ := bind_ok h
         cases pure_ok h; exact sameFlags_refl _
-    | .pass_, cx, hn, _, hs, st, es, st', h => by simp only [lowerStmt] at h; cases ok_ok h; exact sameFlags_refl _
-    | .global_ _, cx, hn, _, hs, st, es, st', h => by simp only [lowerStmt] at h; cases ok_ok h; exact sameFlags_refl _
-    | .assign ts value, cx, hn, _, hs, st, es, st', h => by
+    | .pass_, cx, hn, hs, st, es, st', h => by simp only [lowerStmt] at h; cases ok_ok h; exact sameFlags_refl _
+    | .global_ _, cx, hn, hs, st, es, st', h => by simp only [lowerStmt] at h; cases ok_ok h; exact sameFlags_refl _
+    | .assign ts value, cx, hn, hs, st, es, st', h => by
         cases hs with
         | assign _ _ hne hts hcv =>
           simp only [lowerStmt] at h
@@ -292,7 +409,7 @@ mutual
             cases pure_ok h
             exact sameFlags_trans (assignTargets_flags hn _ ts hts _ r st2 hr) (sameFlags_fresh st "assign")
           · exact assignTargets_flags hn _ ts hts _ _ _ h
-    | .augAssign tg op value, cx, hn, _, hs, st, es, st', h => by
+    | .augAssign tg op value, cx, hn, hs, st, es, st', h => by
         cases hs with
         | aug _ _ _ hst hcv =>
           simp only [lowerStmt, lowerAugAssign] at h
@@ -315,42 +432,51 @@ mutual
           | tuple _ _ _ => cases h
           | list _ _ _ => cases h
           | starred _ _ => cases h
-    | .while_ .., _, _, _, hs, _, _, _, _ => by cases hs
-    | .for_ .., _, _, _, hs, _, _, _, _ => by cases hs
-    | .break_, _, _, _, hs, _, _, _, _ => by cases hs
-    | .continue_, _, _, _, hs, _, _, _, _ => by cases hs
-    | .annAssign .., _, _, _, hs, _, _, _, _ => by cases hs
-    | .functionDef .., _, _, _, hs, _, _, _, _ => by cases hs
-    | .return_ _, _, _, _, hs, _, _, _, _ => by cases hs
-    | .nonlocal_ _, _, _, _, hs, _, _, _, _ => by cases hs
-    | .classDef .., _, _, _, hs, _, _, _, _ => by cases hs
-    | .import_ _, _, _, _, hs, _, _, _, _ => by cases hs
-    | .importFrom .., _, _, _, hs, _, _, _, _ => by cases hs
-    | .other .., _, _, _, hs, _, _, _, _ => by cases hs
+    | .while_ .., _, _, hs, _, _, _, _ => by cases hs
+    | .break_, _, _, hs, _, _, _, _ => by cases hs
+    | .continue_, _, _, hs, _, _, _, _ => by cases hs
+    | .annAssign .., _, _, hs, _, _, _, _ => by cases hs
+    | .functionDef .., _, _, hs, _, _, _, _ => by cases hs
+    | .return_ _, _, _, hs, _, _, _, _ => by cases hs
+    | .nonlocal_ _, _, _, hs, _, _, _, _ => by cases hs
+    | .classDef .., _, _, hs, _, _, _, _ => by cases hs
+    | .import_ _, _, _, hs, _, _, _, _ => by cases hs
+    | .importFrom .., _, _, hs, _, _, _, _ => by cases hs
+    | .other .., _, _, hs, _, _, _, _ => by cases hs
 
-  theorem lowerBlock_flags : ∀ (ss : List Stmt) (cx : Ctx), cx.nsp.kind = .module → cx.loops = [] →
+  theorem lowerBlock_flags : ∀ (ss : List Stmt) (cx : Ctx), cx.nsp.kind = .module →
       (∀ s ∈ ss, SimpleS s) → ∀ (st : St) (es : List Expr) (st' : St), lowerBlock cx ss st = .ok (es, st') → sameFlags st' st
-    | [], cx, _, _, _, st, es, st', h => by simp only [lowerBlock] at h; cases h; exact sameFlags_refl _
-    | s :: ss, cx, hn, hl, hs, st, es, st', h => by
+    | [], cx, _, _, st, es, st', h => by simp only [lowerBlock] at h; cases h; exact sameFlags_refl _
+    | s :: ss, cx, hn, hs, st, es, st', h => by
         simp only [lowerBlock] at h
         obtain ⟨⟨a, st1⟩, ha, h⟩ := bind_ok h
-        have f1 := lowerStmt_flags s cx hn hl (hs s (by simp)) st a st1 ha
-        simp only [simple_not_direct (hs s (by simp)), Bool.false_or, flowKind_module hn hl, mayInt] at h
+        have f1 := lowerStmt_flags s cx hn (hs s (by simp)) st a st1 ha
+        simp only [simple_not_direct (hs s (by simp)), Bool.false_or, simple_mayInt _ (hs s (by simp))] at h
         rcases ite_cases h with ⟨_, h⟩ | ⟨_, h⟩
         · cases pure_ok h; exact f1
         · simp only [Bool.false_eq_true, if_false] at h
           obtain ⟨⟨rest, st2⟩, hr, h⟩ := bind_ok h
           cases pure_ok h
-          exact sameFlags_trans (lowerBlock_flags ss cx hn hl (fun x hx => hs x (by simp [hx])) st1 rest st2 hr) f1
+          exact sameFlags_trans (lowerBlock_flags ss cx hn (fun x hx => hs x (by simp [hx])) st1 rest st2 hr) f1
 end
 
-/-! ### statements and blocks, with `if` at any nesting -/
+/-- the iterations of the comprehension follow the iterations of the `for` statement -/
+theorem forIter_sim (W : World U V) (elt : Expr) (item : String) {target : Expr} {body : List Stmt} {it : V}
+    (hstep : ∀ (v : V) {u1 u2 u3 : U}, AssignT W target v u1 u2 → ExecB W body u2 u3 → ∀ (t : T V), ∃ ev t', Ev W elt u1 ((item, v) :: t) ev u3 t') :
+    ∀ {u u' : U}, ForIter W target body it u u' → ∀ (t : T V), ∃ vs t', Iter W elt item it u t vs u' t'
+  | _, _, .done _ _ _ hn, t => ⟨[], t, .done elt item it t hn⟩
+  | _, _, .step _ _ _ hn ha hb hrest, t => by
+      obtain ⟨ev, t1, he⟩ := hstep _ ha hb t
+      obtain ⟨vs, t2, hi⟩ := forIter_sim W elt item hstep hrest t1
+      exact ⟨ev :: vs, t2, .step elt item it hn he hi⟩
+
+/-! ### statements and blocks, with `if` and `for` at any nesting -/
 
 mutual
-  theorem lowerStmt_sim (W : World U V) (hW : Lawful W) (hS : LawfulSeq W) : ∀ (s : Stmt) (cx : Ctx), cx.nsp.kind = .module → cx.loops = [] →
+  theorem lowerStmt_sim (W : World U V) (hW : Lawful W) (hS : LawfulSeq W) : ∀ (s : Stmt) (cx : Ctx), cx.nsp.kind = .module →
       SimpleS s → ∀ {u u' : U}, ExecS W s u u' → ∀ (t : T V) (st : St) (es : List Expr) (st' : St),
       lowerStmt cx s st = .ok (es, st') → (∃ t', Seq W es u t u' t') ∧ sameFlags st' st
-    | .if_ test body orelse, cx, hn, hl, hs, u, u', hx, t, st, es, st', h => by
+    | .if_ test body orelse, cx, hn, hs, u, u', hx, t, st, es, st', h => by
         cases hs with
         | if_ _ _ _ hct hsb hso =>
           simp only [lowerStmt] at h
@@ -360,12 +486,12 @@ mutual
           rw [transf_module_id _ hn [] test t' ht'] at h
           have hfl : sameFlags st2 st := by
             cases hx with
-            | ifTrue _ _ _ _ _ hxb => exact sameFlags_trans (lowerBlock_flags orelse cx hn hl hso st1 o st2 ho) (lowerBlock_flags body cx hn hl hsb st b st1 hb)
-            | ifFalse _ _ _ _ _ hxb => exact sameFlags_trans (lowerBlock_flags orelse cx hn hl hso st1 o st2 ho) (lowerBlock_flags body cx hn hl hsb st b st1 hb)
+            | ifTrue _ _ _ _ _ hxb => exact sameFlags_trans (lowerBlock_flags orelse cx hn hso st1 o st2 ho) (lowerBlock_flags body cx hn hsb st b st1 hb)
+            | ifFalse _ _ _ _ _ hxb => exact sameFlags_trans (lowerBlock_flags orelse cx hn hso st1 o st2 ho) (lowerBlock_flags body cx hn hsb st b st1 hb)
           cases hx with
           | ifTrue _ _ _ htest htr hxb =>
             have ft := (frame W htest hct).2 t
-            obtain ⟨⟨tb, rb⟩, _⟩ := lowerBlock_sim W hW hS body cx hn hl hsb hxb t st b st1 hb
+            obtain ⟨⟨tb, rb⟩, _⟩ := lowerBlock_sim W hW hS body cx hn hsb hxb t st b st1 hb
             obtain ⟨v, hv⟩ := wrap_sim W cx.cfg rb
             cases hst : cx.cfg.ifStyle with
             | ifExpr =>
@@ -384,7 +510,7 @@ mutual
                 exact ⟨⟨tb, Seq.cons (.orT _ _ hand (hW.list _ _ _)) (Seq.nil W _ _)⟩, hfl⟩
           | ifFalse _ _ _ htest htr hxb =>
             have ft := (frame W htest hct).2 t
-            obtain ⟨⟨to, ro⟩, _⟩ := lowerBlock_sim W hW hS orelse cx hn hl hso hxb t st1 o st2 ho
+            obtain ⟨⟨to, ro⟩, _⟩ := lowerBlock_sim W hW hS orelse cx hn hso hxb t st1 o st2 ho
             obtain ⟨v, hv⟩ := wrap_sim W cx.cfg ro
             cases hst : cx.cfg.ifStyle with
             | ifExpr =>
@@ -403,34 +529,77 @@ mutual
                 -- the test is false: `and` yields its value, `or` takes its truth value again (the same, by `retest`)
                 have hand := Ev.andF (W := W) test (.list [wrapExprs cx.cfg b]) ft htr
                 exact ⟨⟨to, Seq.cons (.orF _ _ hand (hW.retest _ _ _ _ htr) hv) (Seq.nil W _ _)⟩, hfl⟩
-    | .expr e, cx, hn, _, hs, _, _, hx, t, st, es, st', h => lowerSimple_sim W hS cx hn hs (by intro c b e h; cases h) hx t st es st' h
-    | .pass_, cx, hn, _, hs, _, _, hx, t, st, es, st', h => lowerSimple_sim W hS cx hn hs (by intro c b e h; cases h) hx t st es st' h
-    | .global_ _, cx, hn, _, hs, _, _, hx, t, st, es, st', h => lowerSimple_sim W hS cx hn hs (by intro c b e h; cases h) hx t st es st' h
-    | .assign _ _, cx, hn, _, hs, _, _, hx, t, st, es, st', h => lowerSimple_sim W hS cx hn hs (by intro c b e h; cases h) hx t st es st' h
-    | .augAssign _ _ _, cx, hn, _, hs, _, _, hx, t, st, es, st', h => lowerSimple_sim W hS cx hn hs (by intro c b e h; cases h) hx t st es st' h
-    | .while_ .., _, _, _, hs, _, _, _, _, _, _, _, _ => by cases hs
-    | .for_ .., _, _, _, hs, _, _, _, _, _, _, _, _ => by cases hs
-    | .break_, _, _, _, hs, _, _, _, _, _, _, _, _ => by cases hs
-    | .continue_, _, _, _, hs, _, _, _, _, _, _, _, _ => by cases hs
-    | .annAssign .., _, _, _, hs, _, _, _, _, _, _, _, _ => by cases hs
-    | .functionDef .., _, _, _, hs, _, _, _, _, _, _, _, _ => by cases hs
-    | .return_ _, _, _, _, hs, _, _, _, _, _, _, _, _ => by cases hs
-    | .nonlocal_ _, _, _, _, hs, _, _, _, _, _, _, _, _ => by cases hs
-    | .classDef .., _, _, _, hs, _, _, _, _, _, _, _, _ => by cases hs
-    | .import_ _, _, _, _, hs, _, _, _, _, _, _, _, _ => by cases hs
-    | .importFrom .., _, _, _, hs, _, _, _, _, _, _, _, _ => by cases hs
-    | .other .., _, _, _, hs, _, _, _, _, _, _, _, _ => by cases hs
+    | .for_ target iter body orelse, cx, hn, hs, u, u', hx, t, st, es, st', h => by
+        cases hs with
+        | for_ _ _ _ _ hst hci hsb hso =>
+          cases hx with
+          | @for_ _ _ _ _ iv it _ u1 u2 u3 _ hiter hget hfor horelse =>
+            have hflags := lowerStmt_flags (.for_ target iter body orelse) cx hn (.for_ _ _ _ _ hst hci hsb hso) st es st' h
+            simp only [lowerStmt, simpleL_anyIntL body hsb, simpleL_hasBreakL body hsb, simpleL_guardsInL .loop body hsb] at h
+            obtain ⟨⟨b, st1⟩, hb, h⟩ := bind_ok h
+            obtain ⟨⟨o, st2⟩, ho, h⟩ := bind_ok h
+            obtain ⟨⟨asg, st4⟩, ha, h⟩ := bind_ok h
+            obtain ⟨itr, hitr, h⟩ := bind_ok h
+            rw [transf_module_id _ hn [] iter itr hitr] at h
+            have hitem := isTemp_fresh st2 "item"
+            have fi := (frame W hiter hci).2 t
+            -- one iteration: bind the target from the comprehension variable, then the body
+            have hstep : ∀ (v : V) {w1 w2 w3 : U}, AssignT W target v w1 w2 → ExecB W body w2 w3 → ∀ (t0 : T V),
+                ∃ ev t', Ev W (wrapExprs cx.cfg (asg ++ b)) w1 (((st2.fresh "item").1, v) :: t0) ev w3 t' := by
+              intro v w1 w2 w3 hat hbody t0
+              obtain ⟨t1, hs1, _, _, _⟩ := assignAuto_pure W hS hn target hst false hat (.name (st2.fresh "item").1) [(st2.fresh "item").1]
+                (((st2.fresh "item").1, v) :: t0) (st2.fresh "item").2 (liveOk_single st2 "item") (pureOn_temp W (by simp) hitem (lookup_head _ _ _)) asg st4 ha
+              obtain ⟨⟨t2, hs2⟩, _⟩ := lowerBlock_sim W hW hS body _ (by exact hn) hsb hbody t1 _ b st1 hb
+              obtain ⟨ev, hev⟩ := wrap_sim W cx.cfg (Seq.append hs1 hs2)
+              exact ⟨ev, t2, hev⟩
+            obtain ⟨vs, t3, hiterT⟩ := forIter_sim W (wrapExprs cx.cfg (asg ++ b)) (st2.fresh "item").1 hstep hfor t
+            have hloop : Ev W (.listComp (wrapExprs cx.cfg (asg ++ b)) [.mk (.name (st2.fresh "item").1) iter [] false]) u t (W.listOf vs) u3 t3 :=
+              .forComp _ _ _ hitem fi hget hiterT
+            obtain ⟨⟨t4, ro⟩, _⟩ := lowerBlock_sim W hW hS orelse cx hn hso horelse t3 st1 o st2 ho
+            rcases ite_cases h with ⟨hoe, h⟩ | ⟨hoe, h⟩
+            · cases pure_ok h
+              have : orelse = [] := by simpa using hoe
+              subst this
+              cases horelse
+              exact ⟨⟨t3, Seq.cons hloop (Seq.nil W _ _)⟩, hflags⟩
+            · cases pure_ok h
+              simp only [List.nil_append, List.append_nil, Bool.false_eq_true, if_false]
+              by_cases hoi : o.isEmpty = true
+              · have : o = [] := by simpa using hoi
+                subst this
+                obtain ⟨rfl, rfl⟩ := seq_nil_inv ro
+                simp only [List.isEmpty_nil, if_true, List.append_nil]
+                exact ⟨⟨_, Seq.cons hloop (Seq.nil W _ _)⟩, hflags⟩
+              · obtain ⟨v, hv⟩ := wrap_sim W cx.cfg ro
+                simp only [hoi, Bool.false_eq_true, if_false]
+                exact ⟨⟨t4, Seq.cons hloop (Seq.cons hv (Seq.nil W _ _))⟩, hflags⟩
+    | .expr e, cx, hn, hs, _, _, hx, t, st, es, st', h => lowerSimple_sim W hS cx hn hs (by intro c b e h; cases h) (by intro tg i b e h; cases h) hx t st es st' h
+    | .pass_, cx, hn, hs, _, _, hx, t, st, es, st', h => lowerSimple_sim W hS cx hn hs (by intro c b e h; cases h) (by intro tg i b e h; cases h) hx t st es st' h
+    | .global_ _, cx, hn, hs, _, _, hx, t, st, es, st', h => lowerSimple_sim W hS cx hn hs (by intro c b e h; cases h) (by intro tg i b e h; cases h) hx t st es st' h
+    | .assign _ _, cx, hn, hs, _, _, hx, t, st, es, st', h => lowerSimple_sim W hS cx hn hs (by intro c b e h; cases h) (by intro tg i b e h; cases h) hx t st es st' h
+    | .augAssign _ _ _, cx, hn, hs, _, _, hx, t, st, es, st', h => lowerSimple_sim W hS cx hn hs (by intro c b e h; cases h) (by intro tg i b e h; cases h) hx t st es st' h
+    | .while_ .., _, _, hs, _, _, _, _, _, _, _, _ => by cases hs
+    | .break_, _, _, hs, _, _, _, _, _, _, _, _ => by cases hs
+    | .continue_, _, _, hs, _, _, _, _, _, _, _, _ => by cases hs
+    | .annAssign .., _, _, hs, _, _, _, _, _, _, _, _ => by cases hs
+    | .functionDef .., _, _, hs, _, _, _, _, _, _, _, _ => by cases hs
+    | .return_ _, _, _, hs, _, _, _, _, _, _, _, _ => by cases hs
+    | .nonlocal_ _, _, _, hs, _, _, _, _, _, _, _, _ => by cases hs
+    | .classDef .., _, _, hs, _, _, _, _, _, _, _, _ => by cases hs
+    | .import_ _, _, _, hs, _, _, _, _, _, _, _, _ => by cases hs
+    | .importFrom .., _, _, hs, _, _, _, _, _, _, _, _ => by cases hs
+    | .other .., _, _, hs, _, _, _, _, _, _, _, _ => by cases hs
 
-  theorem lowerBlock_sim (W : World U V) (hW : Lawful W) (hS : LawfulSeq W) : ∀ (ss : List Stmt) (cx : Ctx), cx.nsp.kind = .module → cx.loops = [] →
+  theorem lowerBlock_sim (W : World U V) (hW : Lawful W) (hS : LawfulSeq W) : ∀ (ss : List Stmt) (cx : Ctx), cx.nsp.kind = .module →
       (∀ s ∈ ss, SimpleS s) → ∀ {u u' : U}, ExecB W ss u u' → ∀ (t : T V) (st : St) (es : List Expr) (st' : St),
       lowerBlock cx ss st = .ok (es, st') → (∃ t', Seq W es u t u' t') ∧ sameFlags st' st
-    | [], cx, _, _, _, _, _, .nil _, t, st, es, st', h => by
+    | [], cx, _, _, _, _, .nil _, t, st, es, st', h => by
         simp only [lowerBlock] at h; cases h; exact ⟨⟨t, Seq.nil W _ _⟩, sameFlags_refl _⟩
-    | s :: ss, cx, hn, hl, hs, _, _, .cons h1 h2, t, st, es, st', h => by
+    | s :: ss, cx, hn, hs, _, _, .cons h1 h2, t, st, es, st', h => by
         simp only [lowerBlock] at h
         obtain ⟨⟨a, st1⟩, ha, h⟩ := bind_ok h
-        obtain ⟨⟨t1, r1⟩, f1⟩ := lowerStmt_sim W hW hS s cx hn hl (hs s (by simp)) h1 t st a st1 ha
-        simp only [simple_not_direct (hs s (by simp)), Bool.false_or, flowKind_module hn hl, mayInt] at h
+        obtain ⟨⟨t1, r1⟩, f1⟩ := lowerStmt_sim W hW hS s cx hn (hs s (by simp)) h1 t st a st1 ha
+        simp only [simple_not_direct (hs s (by simp)), Bool.false_or, simple_mayInt _ (hs s (by simp))] at h
         rcases ite_cases h with ⟨hemp, h⟩ | ⟨_, h⟩
         · cases pure_ok h
           have : ss = [] := by simpa using hemp
@@ -440,13 +609,13 @@ mutual
         · simp only [Bool.false_eq_true, if_false] at h
           obtain ⟨⟨rest, st2⟩, hr, h⟩ := bind_ok h
           cases pure_ok h
-          obtain ⟨⟨t2, r2⟩, f2⟩ := lowerBlock_sim W hW hS ss cx hn hl (fun x hx => hs x (by simp [hx])) h2 t1 st1 rest st2 hr
+          obtain ⟨⟨t2, r2⟩, f2⟩ := lowerBlock_sim W hW hS ss cx hn (fun x hx => hs x (by simp [hx])) h2 t1 st1 rest st2 hr
           exact ⟨⟨t2, Seq.append r1 r2⟩, sameFlags_trans f2 f1⟩
 end
 
 /-! ### the module -/
 
-theorem goModule_sim (W : World U V) (hW : Lawful W) (hS : LawfulSeq W) (cx : Ctx) (hn : cx.nsp.kind = .module) (hl : cx.loops = []) :
+theorem goModule_sim (W : World U V) (hW : Lawful W) (hS : LawfulSeq W) (cx : Ctx) (hn : cx.nsp.kind = .module) :
     ∀ (ss : List Stmt), (∀ s ∈ ss, SimpleS s) → ∀ {u u' : U}, ExecB W ss u u' → ∀ (t : T V) (st : St) (es : List Expr) (st' : St),
       lowerFull.goModule cx ss st = .ok (es, st') → (∃ t', Seq W es u t u' t') ∧ sameFlags st' st
   | [], _, _, _, .nil _, t, st, es, st', h => by
@@ -456,8 +625,8 @@ theorem goModule_sim (W : World U V) (hW : Lawful W) (hS : LawfulSeq W) (cx : Ct
       obtain ⟨⟨a, st1⟩, ha, h⟩ := bind_ok h
       obtain ⟨⟨b, st2⟩, hb, h⟩ := bind_ok h
       cases pure_ok h
-      obtain ⟨⟨t1, r1⟩, f1⟩ := lowerStmt_sim W hW hS s cx hn hl (hs s (by simp)) h1 t st a st1 ha
-      obtain ⟨⟨t2, r2⟩, f2⟩ := goModule_sim W hW hS cx hn hl ss (fun x hx => hs x (by simp [hx])) h2 t1 st1 b st2 hb
+      obtain ⟨⟨t1, r1⟩, f1⟩ := lowerStmt_sim W hW hS s cx hn (hs s (by simp)) h1 t st a st1 ha
+      obtain ⟨⟨t2, r2⟩, f2⟩ := goModule_sim W hW hS cx hn ss (fun x hx => hs x (by simp [hx])) h2 t1 st1 b st2 hb
       exact ⟨⟨t2, Seq.append r1 r2⟩, sameFlags_trans f2 f1⟩
 
 /-- **Module code of the fragment means the same after conversion - for every lawful world.**  Whenever
@@ -473,7 +642,7 @@ theorem module_sim (W : World U V) (hW : Lawful W) (hS : LawfulSeq W) (cfg : Cfg
   obtain ⟨⟨b, st⟩, hb, h⟩ := bind_ok h
   cases pure_ok h
   have hk : g.kind = .module := generateNsp_kind hg
-  obtain ⟨⟨t', r⟩, fl⟩ := goModule_sim W hW hS { cfg := cfg, nsp := g, loops := [], fnUsed := false } hk rfl body hs hx [] _ b st hb
+  obtain ⟨⟨t', r⟩, fl⟩ := goModule_sim W hW hS { cfg := cfg, nsp := g, loops := [], fnUsed := false } hk body hs hx [] _ b st hb
   obtain ⟨f1, f2, f3⟩ := fl
   simp only [] at f1 f2 f3
   simp only [f1, f2, f3, Bool.false_eq_true, if_false]
